@@ -465,10 +465,16 @@ def pytest_sessionfinish(session, exitstatus):
                     )
                     continue
 
+                # the diff shows the changes of this category on top of the already
+                # approved ones; all changes of a file have to be applied together,
+                # because changes of different categories can edit the same list/dict/call
+                old_cr = ChangeRecorder()
+                apply_all(used_changes, old_cr)
+
                 cr = ChangeRecorder()
-                apply_all(used_changes, cr)
-                cr.virtual_write()
-                apply_all(changes[flag], cr)
+                apply_all(used_changes + changes[flag], cr)
+                for old_file in old_cr.files():
+                    cr.get_source(old_file.filename).source = old_file.new_code()
 
                 any_changes = False
 
